@@ -13,7 +13,6 @@ import (
 	"github.com/tink-crypto/tink-go/v2/signature"
 	"github.com/tink-crypto/tink-go/v2/signature/slhdsa"
 	"github.com/tink-crypto/tink-go/v2/tink"
-	"github.com/tink-crypto/tink-go/v2/verifharness/internal/detrand"
 	"github.com/tink-crypto/tink-go/v2/verifharness/internal/evid"
 	"github.com/tink-crypto/tink-go/v2/verifharness/internal/gen"
 	"github.com/tink-crypto/tink-go/v2/verifharness/internal/tk"
@@ -59,7 +58,7 @@ func tinkVerify(p pset, pk, msg, sig, ctx []byte) (bool, string) {
 
 func TestScheme(t *testing.T) {
 	rapid.Check(t, func(rt *rapid.T) {
-		detrand.Seed(rapid.Uint64().Draw(rt, "entropy"))
+		begin(rt)
 		p := drawSet(rt, 15)
 		n := p.n()
 		skSeed := rbytes(rt, "skseed", n)
@@ -246,7 +245,7 @@ func cached(rt *rapid.T, p pset) *cachedSig {
 
 func TestVerifyRandomDigests(t *testing.T) {
 	rapid.Check(t, func(rt *rapid.T) {
-		detrand.Seed(rapid.Uint64().Draw(rt, "entropy"))
+		begin(rt)
 		p := drawSet(rt, 30)
 		n := p.n()
 		c := cached(rt, p)
@@ -330,7 +329,7 @@ func apiSetOf(p pset) apiSet {
 
 func TestTinkAPI(t *testing.T) {
 	rapid.Check(t, func(rt *rapid.T) {
-		detrand.Seed(rapid.Uint64().Draw(rt, "entropy"))
+		begin(rt)
 		p := drawSet(rt, 10)
 		n := p.n()
 		variant := sample(rt, "variant", []string{tk.Tink, tk.NoPrefix})
